@@ -1,13 +1,14 @@
 #!/bin/sh
 # usage: tools/seeded_regress.sh [ID-n ...]   re-runs every stored seeded change (or the named ones) against the check of its
 # property on a scratch copy of /repo; prints one line per change. rc=1 = reported (wanted), rc=0 = MISSED, rc=3 = patch stale.
-# seeded/<ID-n>/regress.conf may set PATCH= (a rebased patch), TIER= and ONLY_KIND= (partial thorough run of one shard kind).
+# seeded/<ID-n>/regress.conf may set PATCH= (a rebased patch), TIER=, ONLY_KIND= (partial thorough run of one shard kind) and
+# CHECK= (the sibling check whose property the change really violates, see DESIGN 10.2 round D).
 cd /verif
 LIST="${*:-$(ls seeded)}"
 for S in $LIST; do
   ID=$(echo "$S" | cut -d- -f1)
-  PATCH=patch.diff; TIER=quick; ONLY_KIND=
+  PATCH=patch.diff; TIER=quick; ONLY_KIND=; CHECK=$ID
   [ -f "seeded/$S/regress.conf" ] && . "seeded/$S/regress.conf"
-  R=$(VERIF_ONLY_KIND="$ONLY_KIND" tools/mutant.sh "seeded/$S/$PATCH" "$ID" "$TIER" 2>&1 | tail -1)
+  R=$(VERIF_ONLY_KIND="$ONLY_KIND" tools/mutant.sh "seeded/$S/$PATCH" "$CHECK" "$TIER" 2>&1 | tail -1)
   echo "SEEDED $S :: $R"
 done
